@@ -127,6 +127,8 @@ struct Cx<'a> {
     alias: HashMap<String, (String, String)>, // deref alias: name -> (array, index variable)
     tmp: usize,
     pre: Vec<String>, // statements hoisted out of the expression being translated
+    zips: HashMap<String, (String, String, String, String)>, // let z = dst[dlo..].iter_mut().zip(&src[slo..])
+    ret_arr: bool,    // the function returns an array: `return e;` and the tail assign the variable %ret
 }
 
 impl<'a> Cx<'a> {
@@ -218,6 +220,13 @@ impl<'a> Cx<'a> {
                     _ => Self::unsupported(e),
                 }
             }
+            syn::Expr::Unary(u) if matches!(u.op, syn::UnOp::Not(_)) => {
+                let (x, t) = self.expr(&u.expr, expect);
+                match t.or(expect) {
+                    Some(t) => (format!("(ENot {} {})", t.coq(), x), Some(t)),
+                    None => Self::unsupported(e),
+                }
+            }
             syn::Expr::Unary(u) => {
                 if let syn::UnOp::Deref(_) = u.op {
                     if let syn::Expr::Path(p) = &*u.expr {
@@ -235,6 +244,15 @@ impl<'a> Cx<'a> {
             syn::Expr::Index(ix) => {
                 if let (Some((a, t)), Some(i)) = (self.array_name(&ix.expr), self.idx(&ix.index)) {
                     return (format!("(EIdx {} {})", q(&a), i), Some(t));
+                }
+                // a[<computed usize>]
+                if let Some((a, t)) = self.array_name(&ix.expr) {
+                    if !matches!(&*ix.index, syn::Expr::Range(_)) {
+                        let (i, ti) = self.expr(&ix.index, Some(Ity::Usz));
+                        if ti == Some(Ity::Usz) {
+                            return (format!("(EIdxE {} {})", q(&a), i), Some(t));
+                        }
+                    }
                 }
                 Self::unsupported(e)
             }
@@ -300,6 +318,10 @@ impl<'a> Cx<'a> {
                             _ => Self::unsupported(e),
                         }
                     }
+                    "len" if m.args.is_empty() && self.array_name(&m.receiver).is_some() => {
+                        let (a, _) = self.array_name(&m.receiver).unwrap();
+                        (format!("(ELen {})", q(&a)), Some(Ity::Usz))
+                    }
                     // self.buffer.len(): a byte-level helper of HashPacket (internal.rs), given to the interpreter as an external
                     "len" if toks(&m.receiver) == "self . buffer" && m.args.is_empty() => {
                         let t = self.fresh("c");
@@ -327,6 +349,25 @@ impl<'a> Cx<'a> {
                 // u64::from(x)
                 if let syn::Expr::Path(p) = &*c.func {
                     let segs: Vec<String> = p.path.segments.iter().map(|s| s.ident.to_string()).collect();
+                    // uN::from_le_bytes([a[0], a[1], .., a[n-1]])
+                    if segs.len() == 2 && segs[1] == "from_le_bytes" && c.args.len() == 1 {
+                        if let (Some(to), syn::Expr::Array(arr)) = (Ity::of_name(&segs[0]), &c.args[0]) {
+                            let mut name: Option<String> = None;
+                            let mut ok = arr.elems.len() as u32 * 8 == to.bits();
+                            for (k, el) in arr.elems.iter().enumerate() {
+                                match el {
+                                    syn::Expr::Index(ix) => match (self.array_name(&ix.expr), Self::lit(&ix.index)) {
+                                        (Some((a, Ity::U8)), Some((v, _))) if v as usize == k && name.as_ref().map(|n| *n == a).unwrap_or(true) => name = Some(a),
+                                        _ => ok = false,
+                                    },
+                                    _ => ok = false,
+                                }
+                            }
+                            if let (true, Some(a)) = (ok, name) {
+                                return (format!("(EFromLe {} {})", q(&a), arr.elems.len()), Some(to));
+                            }
+                        }
+                    }
                     if segs.len() == 2 && segs[1] == "from" && c.args.len() == 1 {
                         if let Some(to) = Ity::of_name(&segs[0]) {
                             let (x, ti) = self.expr(&c.args[0], None);
@@ -379,8 +420,17 @@ impl<'a> Cx<'a> {
             }
             syn::Expr::Index(ix) => {
                 let (a, t) = self.array_name(&ix.expr)?;
-                let i = self.idx(&ix.index)?;
-                Some((format!("(PIdx {} {})", q(&a), i), format!("(EIdx {} {})", q(&a), i), Some(t)))
+                if let Some(i) = self.idx(&ix.index) {
+                    return Some((format!("(PIdx {} {})", q(&a), i), format!("(EIdx {} {})", q(&a), i), Some(t)));
+                }
+                if matches!(&*ix.index, syn::Expr::Range(_)) {
+                    return None;
+                }
+                let (i, ti) = self.expr(&ix.index, Some(Ity::Usz));
+                if ti != Some(Ity::Usz) {
+                    return None;
+                }
+                Some((format!("(PIdxE {} {})", q(&a), i), format!("(EIdxE {} {})", q(&a), i), Some(t)))
             }
             _ => None,
         }
@@ -446,16 +496,140 @@ impl<'a> Cx<'a> {
         }
     }
 
+    fn opt_bound(&mut self, e: &Option<Box<syn::Expr>>) -> String {
+        match e {
+            None => "None".into(),
+            Some(x) => {
+                let (t, _) = self.expr(x, Some(Ity::Usz));
+                format!("(Some {})", t)
+            }
+        }
+    }
+
+    /// `a[lo..hi]` / `&a[lo..hi]` with a an array or slice variable -> (a, lo, hi, elem type)
+    fn range_slice(&mut self, e: &syn::Expr) -> Option<(String, String, String, Ity)> {
+        let e = match e {
+            syn::Expr::Reference(r) => &*r.expr,
+            syn::Expr::Paren(p) => &*p.expr,
+            _ => e,
+        };
+        if let syn::Expr::Index(ix) = e {
+            if let (Some((a, t)), syn::Expr::Range(r)) = (self.array_name(&ix.expr), &*ix.index) {
+                if matches!(r.limits, syn::RangeLimits::HalfOpen(_)) {
+                    let lo = self.opt_bound(&r.start);
+                    let hi = self.opt_bound(&r.end);
+                    return Some((a, lo, hi, t));
+                }
+            }
+        }
+        None
+    }
+
+    fn cond(&mut self, e: &syn::Expr) -> Option<String> {
+        if let syn::Expr::Binary(b) = e {
+            use syn::BinOp::*;
+            let name = match &b.op {
+                Ne(_) => "CNe",
+                Eq(_) => "CEq",
+                Gt(_) => "CGt",
+                Lt(_) => "CLt",
+                _ => return None,
+            };
+            // a.len() > b.len()
+            if name == "CGt" {
+                if let (syn::Expr::MethodCall(l), syn::Expr::MethodCall(r)) = (&*b.left, &*b.right) {
+                    if l.method == "len" && r.method == "len" {
+                        if let (Some((x, _)), Some((y, _))) = (self.array_name(&l.receiver), self.array_name(&r.receiver)) {
+                            return Some(format!("(CLenGt {} {})", q(&x), q(&y)));
+                        }
+                    }
+                }
+            }
+            let (l0, tl) = self.expr(&b.left, None);
+            let (r, tr) = self.expr(&b.right, tl);
+            let l = if tl.is_none() { self.expr(&b.left, tr).0 } else { l0 };
+            if tl.or(tr).is_none() {
+                return None;
+            }
+            return Some(format!("({} {} {})", name, l, r));
+        }
+        None
+    }
+
+    /// dst[dlo..].iter_mut().zip(&src[slo..])  ->  (dst, dlo, src, slo)
+    fn zip_of(&mut self, e: &syn::Expr) -> Option<(String, String, String, String)> {
+        if let syn::Expr::MethodCall(z) = e {
+            if z.method == "zip" && z.args.len() == 1 {
+                if let syn::Expr::MethodCall(im) = &*z.receiver {
+                    if im.method == "iter_mut" && im.args.is_empty() {
+                        let (dst, dlo) = match self.range_slice(&im.receiver) {
+                            Some((a, lo, hi, _)) if hi == "None" => (a, lo),
+                            Some(_) => return None,
+                            None => (self.array_name(&im.receiver)?.0, "None".to_string()),
+                        };
+                        let (src, slo) = match self.range_slice(&z.args[0]) {
+                            Some((a, lo, hi, _)) if hi == "None" => (a, lo),
+                            Some(_) => return None,
+                            None => (self.array_name(&z.args[0])?.0, "None".to_string()),
+                        };
+                        return Some((dst, dlo, src, slo));
+                    }
+                }
+            }
+        }
+        None
+    }
+
     fn flush(&mut self, out: &mut Vec<String>, s: String) {
         out.append(&mut self.pre);
         out.push(s);
     }
 
+    /// `%ret = <array expression>` (functions returning an array)
+    fn set_ret(&mut self, e: &syn::Expr, out: &mut Vec<String>) {
+        match self.array_name(e) {
+            Some((n, _)) => out.push(format!("SCopyArr \"%ret\" {}", q(&n))),
+            None => out.push(format!("SUnsupported {}", q(&toks(e)))),
+        }
+    }
+
     fn block(&mut self, b: &syn::Block, out: &mut Vec<String>) -> Option<String> {
+        self.stmts(&b.stmts, out)
+    }
+
+    fn stmts(&mut self, stmts: &[syn::Stmt], out: &mut Vec<String>) -> Option<String> {
         // returns the tail expression's translation (a `ret`), if the block has one
-        let n = b.stmts.len();
-        for (k, st) in b.stmts.iter().enumerate() {
+        let n = stmts.len();
+        for (k, st) in stmts.iter().enumerate() {
+            // if c { ..; return e; }  <rest>   in a function returning an array:  SIf c (..; %ret = e) (<rest>; %ret = tail)
+            if self.ret_arr {
+                if let syn::Stmt::Expr(syn::Expr::If(i), _) = st {
+                    if i.else_branch.is_none() {
+                        if let Some(syn::Stmt::Expr(syn::Expr::Return(r), Some(_))) = i.then_branch.stmts.last() {
+                            if let (Some(c), Some(rv)) = (self.cond(&i.cond), &r.expr) {
+                                let mut th = Vec::new();
+                                let m = i.then_branch.stmts.len();
+                                if self.stmts(&i.then_branch.stmts[..m - 1], &mut th).is_some() {
+                                    th.push("SUnsupported \"value in statement position\"".into());
+                                }
+                                self.set_ret(rv, &mut th);
+                                let mut el = Vec::new();
+                                self.stmts(&stmts[k + 1..], &mut el);
+                                out.append(&mut self.pre);
+                                out.push(format!("SIf {} [{}] [{}]", c, th.join("; "), el.join("; ")));
+                                return None;
+                            }
+                        }
+                    }
+                }
+            }
             match st {
+                syn::Stmt::Macro(m) if m.mac.path.is_ident("debug_assert") && m.mac.tokens.to_string().trim_start().starts_with("false") => {
+                    out.push("SDebugAssertFalse".into())
+                }
+                syn::Stmt::Expr(e, None) if self.ret_arr && k + 1 == n && !matches!(e, syn::Expr::ForLoop(_) | syn::Expr::If(_)) => {
+                    self.set_ret(e, out);
+                }
                 syn::Stmt::Local(l) => self.local(l, out),
                 syn::Stmt::Expr(e, semi) => {
                     if semi.is_none() && k + 1 == n {
@@ -553,6 +727,35 @@ impl<'a> Cx<'a> {
             syn::Pat::Ident(id) if id.by_ref.is_none() && id.subpat.is_none() => {
                 let name = id.ident.to_string();
                 let want = ann.and_then(|t| ty_of(t, false));
+                // [v; n]
+                if let syn::Expr::Repeat(r) = init {
+                    if let Some((n, _)) = Self::lit(&r.len) {
+                        let et = match &want {
+                            Some(Ty::Arr(i)) => Some(*i),
+                            _ => None,
+                        };
+                        let (v, t) = self.expr(&r.expr, et);
+                        if let Some(t) = et.or(t) {
+                            self.vars.insert(name.clone(), Ty::Arr(t));
+                            self.lens.insert(name.clone(), n as usize);
+                            let s = format!("SLetRepeat {} {} {}", q(&name), v, n);
+                            self.flush(out, s);
+                            return;
+                        }
+                    }
+                }
+                // let x = &a[lo..hi];
+                if let Some((a, lo, hi, t)) = self.range_slice(init) {
+                    self.vars.insert(name.clone(), Ty::Arr(t));
+                    let s = format!("SLetSlice {} {} {} {}", q(&name), q(&a), lo, hi);
+                    self.flush(out, s);
+                    return;
+                }
+                // let z = dst[..].iter_mut().zip(&src[..]);  — consumed by the for loop over z
+                if let Some(z) = self.zip_of(init) {
+                    self.zips.insert(name.clone(), z);
+                    return;
+                }
                 // array literal
                 if let syn::Expr::Array(a) = init {
                     let et = match &want {
@@ -690,11 +893,40 @@ impl<'a> Cx<'a> {
                     }
                 }
             }
+            syn::Expr::MethodCall(m)
+                if (m.method == "clone_from_slice" || m.method == "copy_from_slice") && m.args.len() == 1 =>
+            {
+                if let (Some((d, dlo, dhi, _)), Some((sx, slo, shi, _))) = (self.range_slice(&m.receiver), self.range_slice(&m.args[0])) {
+                    let s = format!("SCopyRange {} {} {} {} {} {}", q(&d), dlo, dhi, q(&sx), slo, shi);
+                    self.flush(out, s);
+                    return;
+                }
+            }
             syn::Expr::MethodCall(m) => {
                 if toks(&m.receiver) == "self" {
                     let args: Vec<&syn::Expr> = m.args.iter().collect();
                     if let Some((txt, _)) = self.call(&m.method.to_string(), &args) {
                         let s = format!("SCall None {}", txt);
+                        self.flush(out, s);
+                        return;
+                    }
+                }
+            }
+            syn::Expr::If(i) if toks(&i.cond) != "! self . buffer . is_empty ()" => {
+                if let Some(c) = self.cond(&i.cond) {
+                    let mut th = Vec::new();
+                    let mut el = Vec::new();
+                    let mut ok = self.block(&i.then_branch, &mut th).is_none();
+                    match &i.else_branch {
+                        None => {}
+                        Some((_, eb)) => match &**eb {
+                            syn::Expr::Block(bl) => ok = ok && self.block(&bl.block, &mut el).is_none(),
+                            syn::Expr::If(_) => self.stmt_expr(eb, &mut el),
+                            _ => ok = false,
+                        },
+                    }
+                    if ok {
+                        let s = format!("SIf {} [{}] [{}]", c, th.join("; "), el.join("; "));
                         self.flush(out, s);
                         return;
                     }
@@ -727,6 +959,51 @@ impl<'a> Cx<'a> {
                         return None;
                     }
                     return Some(format!("SFor {} {} {} [{}]", q(&i), lo, hi, body.join("; ")));
+                }
+            }
+        }
+        // for (p, b) in z { *p = *b; }  with z a pending zip, or the zip written in place
+        if let syn::Pat::Tuple(tp) = &*f.pat {
+            if tp.elems.len() == 2 {
+                let z = match &*f.expr {
+                    syn::Expr::Path(p) if p.path.segments.len() == 1 => self.zips.get(&p.path.segments[0].ident.to_string()).cloned(),
+                    other => self.zip_of(other),
+                };
+                if let (Some((dst, dlo, src, slo)), syn::Pat::Ident(a), syn::Pat::Ident(b)) = (z, &tp.elems[0], &tp.elems[1]) {
+                    let body = toks(&f.body);
+                    if body == format!("{{ * {} = * {} ; }}", a.ident, b.ident) {
+                        let mut pre = std::mem::take(&mut self.pre);
+                        pre.push(format!("SZipCopy {} {} {} {}", q(&dst), dlo, q(&src), slo));
+                        return Some(pre.join("; "));
+                    }
+                    return None;
+                }
+                // for (x, dest) in d.chunks_exact(n).zip(arr.iter_mut()) { body }
+                if let syn::Expr::MethodCall(z) = &*f.expr {
+                    if z.method == "zip" && z.args.len() == 1 {
+                        if let (syn::Expr::MethodCall(ce), syn::Expr::MethodCall(im)) = (&*z.receiver, &z.args[0]) {
+                            if ce.method == "chunks_exact" && ce.args.len() == 1 && im.method == "iter_mut" && im.args.is_empty() {
+                                if let (Some((d, Ity::U8)), Some((n, _)), Some((arr, _)), syn::Pat::Ident(x), syn::Pat::Ident(dest)) =
+                                    (self.array_name(&ce.receiver), Self::lit(&ce.args[0]), self.array_name(&im.receiver), &tp.elems[0], &tp.elems[1])
+                                {
+                                    let cnt = if let Some(fl) = arr.strip_prefix("self.") { self.fields.get(fl).map(|v| v.1) } else { self.lens.get(&arr).copied() }?;
+                                    let xs = x.ident.to_string();
+                                    let kv = format!("{}#k", dest.ident);
+                                    self.vars.insert(xs.clone(), Ty::Arr(Ity::U8));
+                                    self.lens.insert(xs.clone(), n as usize);
+                                    self.vars.insert(kv.clone(), Ty::Idx);
+                                    self.alias.insert(dest.ident.to_string(), (arr.clone(), kv.clone()));
+                                    let mut body = Vec::new();
+                                    let r = self.block(&f.body, &mut body);
+                                    self.alias.remove(&dest.ident.to_string());
+                                    if r.is_some() {
+                                        return None;
+                                    }
+                                    return Some(format!("SForChunks {} {} {} {} {} [{}]", q(&xs), q(&kv), q(&d), n, cnt, body.join("; ")));
+                                }
+                            }
+                        }
+                    }
                 }
             }
         }
@@ -840,7 +1117,7 @@ pub fn translate(file: &syn::File, rel: &str, self_ty: &str, wanted: &[&str], ex
             }
         };
         let sig = sigs.get(*w);
-        let mut cx = Cx { self_ty, sigs: &sigs, fields: &fields, vars: HashMap::new(), lens: HashMap::new(), alias: HashMap::new(), tmp: 0, pre: Vec::new() };
+        let mut cx = Cx { self_ty, sigs: &sigs, fields: &fields, vars: HashMap::new(), lens: HashMap::new(), alias: HashMap::new(), tmp: 0, pre: Vec::new(), zips: HashMap::new(), ret_arr: false };
         let mut params = Vec::new();
         let mut body: Vec<String> = Vec::new();
         match sig {
@@ -865,7 +1142,15 @@ pub fn translate(file: &syn::File, rel: &str, self_ty: &str, wanted: &[&str], ex
             }
             None => body.push("SUnsupported \"signature outside the fragment\"".into()),
         }
-        let ret = cx.block(&f.block, &mut body).unwrap_or_else(|| "RNone".into());
+        // a function that returns an array and contains `return`: results go through the variable %ret
+        let has_return = toks(&f.block).contains("return ");
+        cx.ret_arr = has_return && matches!(sig.map(|s| &s.ret), Some(Ty::Arr(_)));
+        let ret = if cx.ret_arr {
+            cx.block(&f.block, &mut body);
+            "RVarArr \"%ret\"".to_string()
+        } else {
+            cx.block(&f.block, &mut body).unwrap_or_else(|| "RNone".into())
+        };
         let _ = writeln!(out, "(* {} :: {} *)", rel, toks(&f.sig));
         let _ = writeln!(out, "Definition src_{} : fndef :=\n  {{| f_params := [{}];\n     f_body := [\n       {}];\n     f_ret := {} |}}.\n", w, params.join("; "), body.join(";\n       "), ret);
         names.push(w.to_string());
